@@ -632,6 +632,13 @@ def _identity_deviations(spec, cfg, sl, sizes, E, H, rng):
             raise RealCodeRaised(f"{type(det).__name__}({opts}) on box {box or sl}: {type(e).__name__}: {e}") from e
 
     devs = {}
+    if kind in ("field", "energy", "phasor"):
+        # Lemma A on the real code: the cached volume weights are the physical cell volumes
+        try:
+            d0 = FieldDetector(name="w", switch=sw, dtype=jnp.float64).place_on_grid(sl, cfg, kk)
+        except Exception as e:  # noqa: BLE001
+            raise RealCodeRaised(f"FieldDetector.place_on_grid on box {sl}: {type(e).__name__}: {e}") from e
+        devs["cached volume weights vs wx*wy*wz"] = rel(np.asarray(d0._cached_cell_volume_weights, dtype=float) * np.ones(sizes), V)
     if kind == "field":
         comps = tuple(spec["comps"])
         s = run(FieldDetector(name="a", components=comps, switch=sw, dtype=jnp.float64))
